@@ -338,6 +338,51 @@ def gen_pairs(ctx):
         chunks = [r.choice([1, 2, 3, 5, 8, 13, 40]), r.choice([1, 2, 3, 5, 8, 13, 40])]
         add("swath", src, tgt, ("thin_" if thin else "") + "swath_" + rel, chunks=chunks)
 
+    # chunked swaths with a target that is small compared with the dask chunks and lies strictly inside ONE chunk, away from
+    # the one-pixel-expanded chunk borders (same and different CRS; uniform and ragged chunkings): the chunk must be hit by
+    # containment, not by a crossing of outlines
+    def ragged(n):
+        k = r.randint(3, 7)
+        cuts = sorted(r.sample(range(1, n), k - 1))
+        return [b - a for a, b in zip([0] + cuts, cuts + [n])]
+    for i in range(ctx.n(12, 120)):
+        lon, lat = r.choice(SCENES[:4])
+        lat = max(-70, min(70, lat))
+        sk = r.choice(["laea", "merc" if abs(lat) < 60 else "laea", "stere_n" if lat > 0 else "stere_s"])
+        n_r, n_c = r.choice([60, 80, 120]), r.choice([60, 80, 120])
+        px = r.choice([5000.0, 10000.0, 20000.0])
+        src = mk_area(r, sk, lon, lat, px * 100, (n_r, n_c))
+        if src is None:
+            continue
+        x0, y0, x1, y1 = src["extent"]
+        dx, dy = (x1 - x0) / n_c, (y1 - y0) / n_r
+        if i % 3 == 2:
+            rc, cc = ragged(n_r), ragged(n_c)
+        else:
+            k = r.choice([20, 30, 40])
+            rc = [k] * (n_r // k) + ([n_r % k] if n_r % k else [])
+            cc = [k] * (n_c // k) + ([n_c % k] if n_c % k else [])
+        big_r = [j for j, v in enumerate(rc) if v >= 14]
+        big_c = [j for j, v in enumerate(cc) if v >= 14]
+        if not big_r or not big_c:
+            continue
+        jr, jc = r.choice(big_r), r.choice(big_c)
+        r0, c0 = sum(rc[:jr]), sum(cc[:jc])
+        # a window of 3..6 source pixels, at least 4 pixels away from the borders of the chosen chunk
+        hr, hc = r.randint(3, min(6, rc[jr] - 8)), r.randint(3, min(6, cc[jc] - 8))
+        wr = r0 + r.randint(4, rc[jr] - 4 - hr)
+        wc = c0 + r.randint(4, cc[jc] - 4 - hc)
+        wx0, wx1 = x0 + wc * dx, x0 + (wc + hc) * dx
+        wy1, wy0 = y1 - wr * dy, y1 - (wr + hr) * dy
+        if i % 2 == 0:
+            tgt = {"proj": src["proj"], "shape": [r.randint(2, 12), r.randint(2, 12)],
+                   "extent": [min(wx0, wx1), min(wy0, wy1), max(wx0, wx1), max(wy0, wy1)], "kind": src["kind"]}
+        else:
+            from pyproj import Proj
+            clon, clat = Proj(src["proj"])(0.5 * (wx0 + wx1), 0.5 * (wy0 + wy1), inverse=True)
+            tgt = mk_area(r, pick_kind(r, clat), clon, clat, 0.6 * min(hr * abs(dy), hc * abs(dx)), (r.randint(2, 12), r.randint(2, 12)))
+        add("swath", src, tgt, "swath_inside_chunk", chunks=[rc, cc])
+
     # CRS spelling: the same geometries with the CRS given as an authority code (string or int), including codes whose
     # authority axis order is (lat, lon) / (northing, easting): EPSG:4326, EPSG:3035; xy-ordered codes for contrast
     def coded_area(code, kind, lon_c, lat_c, span, shape):
@@ -458,6 +503,8 @@ def failure_key(clause, api, case, cols):
         return "C11.H_poly.gas.different_crs"
     if wraps_source_crs(case, cols):
         return "C11.H_poly.%s.target_wraps_source_crs_antimeridian" % api
+    if case.get("cls") == "swath_inside_chunk":
+        return "C11.%s.swath.target_inside_one_chunk" % clause
     if case.get("cls") == "crs_code":
         return "C11.crs_spelling.%s.%s" % (api, clause)
     if api == "swath" and clause == "cover" and case.get("cls") == "swath_oblique":
@@ -952,7 +999,7 @@ def run(ctx):
         if "_bil_ok" in c:
             ctx.count("bilinear_neighbours_inside" if c["_bil_ok"] else "bilinear_neighbours_not_all_inside")
         ctx.count("crs:%s<-%s" % (c["src"]["kind"], c["tgt"]["kind"]))
-        group = ("oblique_chunks" if c["cls"] == "swath_oblique" else "crs_code" if c["cls"] == "crs_code" else "corpus" if c["cls"].endswith("corpus") else
+        group = ("oblique_chunks" if c["cls"] == "swath_oblique" else "inside_one_chunk" if c["cls"] == "swath_inside_chunk" else "crs_code" if c["cls"] == "crs_code" else "corpus" if c["cls"].endswith("corpus") else
                  "one_pixel_thick_target" if thin_target(c) else "geos_source" if c["src"]["kind"] == "geos" else
                  "same_crs" if "same_crs" in c["cls"] else "different_crs")
         kind = "%s/%s" % (api, group)
